@@ -102,7 +102,8 @@ def grep_forbidden():
 def audit_axioms(pid, module, theorems):
     """#print axioms for every property theorem; returns {thm: [axioms]} or raises."""
     os.makedirs(BUILD, exist_ok=True)
-    src = "import %s\n" % module + "".join("#print axioms %s\n" % t for t in theorems)
+    mods = module if isinstance(module, list) else [module]
+    src = "".join("import %s\n" % m for m in mods) + "".join("#print axioms %s\n" % t for t in theorems)
     path = os.path.join(BUILD, "Audit_%s.lean" % pid)
     open(path, "w").write(src)
     rc, so, se = sh(["lake", "env", "lean", path], cwd=LEAN, timeout=1200)
@@ -314,6 +315,10 @@ def do_setup():
     if not ok:
         log(out)
         return 1
+    fok, fout = props.run_factgen(sh, GOENV)
+    if not fok:
+        log("factgen: " + fout)
+        return 1
     ok, out = build_lean(["GoatModel", "GoatProofs", "driver"])
     if not ok:
         log(out[-6000:])
@@ -340,23 +345,24 @@ def check_property(pid, tier, seed):
         fok, fout = props.run_factgen(sh, GOENV)
         if not fok:
             notes.append("factgen failed: " + fout[-500:])
-    ok, out = build_lean(["GoatModel", "driver", P["module"]])
+    mods = P["module"] if isinstance(P["module"], list) else [P["module"]]
+    ok, out = build_lean(["GoatModel", "driver"] + mods)
     obligations = P["theorems"]
     axioms = {}
     discharged = []
+    broken_obligation = None
     if not ok:
         # a proof obligation (or a regenerated-facts obligation) no longer checks
         broken = re.findall(r"error: ([^\n]*)", out)[:5]
         files = sorted(set(re.findall(r"(Goat\w+/[\w/]+\.lean):\d+", out)))
         notes.append("lake build failed: %s" % "; ".join(broken))
-        hdr = {"property": pid, "broken": "proof obligation(s) no longer check", "files": ",".join(files), "errors": " | ".join(broken)}
-        wit = props.search_after_broken_obligation(pid, out) if hasattr(props, "search_after_broken_obligation") else None
-        if wit:
-            path = write_replay(pid, "obligation", dict(hdr, witness=wit["detail"]), wit.get("ops", []))
-            violations.append((path, ""))
-        else:
-            path = write_replay(pid, "obligation", hdr, [])
+        broken_obligation = {"property": pid, "broken": "proof obligation(s) no longer check", "files": ",".join(files), "errors": " | ".join(broken)}
+        # the executable model may still build: go on and search for a concrete failing input
+        ok2, out2 = build_lean(["GoatModel", "driver"])
+        if not ok2:
+            path = write_replay(pid, "obligation", broken_obligation, [])
             violations.append((path, " no-failing-input-found"))
+            return finish(pid, tier, seed, t0, P, {}, [], violations, known_lines, notes, {}, [])
     else:
         axioms, missing, aout = audit_axioms(pid, P["module"], obligations)
         for t in obligations:
@@ -407,6 +413,15 @@ def check_property(pid, tier, seed):
         if not hard and not mon_hits and not r.error:
             continue
         if r.error and not hard and not mon_hits:
+            crashed = "harness exit" in r.error and re.search(r"panic:|fatal error:|SIGSEGV|nil pointer|goroutine \d+ \[running\]", r.error)
+            if pid == "C19" and crashed:
+                # the real code killed the process: that is the failing input of C19 (the history is regenerated from stream/seed/n)
+                hdr = {"property": pid, "stream": stream, "binary": binary, "seed": r.seed, "n": r.n, "regen": "1", "kind": "crash",
+                       "detail": "the process running the real application died: " + r.error.replace("\n", " | ")[:1500],
+                       "how": "./check %s --replay <this file>" % pid}
+                path = write_replay(pid, "crash", hdr, r.ops[-40:], r.impl[-40:], r.model[-40:])
+                violations.append((path, ""))
+                continue
             hdr = {"property": pid, "stream": stream, "binary": binary, "seed": r.seed, "broken": "correspondence could not be run: " + r.error.replace("\n", " | ")[:1500]}
             path = write_replay(pid, "harness", hdr, r.ops[-20:])
             violations.append((path, " no-failing-input-found"))
@@ -483,6 +498,16 @@ def check_property(pid, tier, seed):
         path = write_replay(pid, kind, hdr, rr.ops, rr.impl, rr.model)
         violations.append((path, suffix))
 
+    if broken_obligation:
+        concrete = [v for v in violations if v[1] == ""]
+        if concrete:
+            # the search found an input on which the property fails: that is the replay; name the broken theorem in it
+            for path, _ in concrete:
+                txt = open(path).read()
+                open(path, "w").write("# broken_obligation=%s %s\n" % (broken_obligation["files"], broken_obligation["errors"][:600]) + txt)
+        else:
+            path = write_replay(pid, "obligation", broken_obligation, [])
+            violations.append((path, " no-failing-input-found"))
     return finish(pid, tier, seed, t0, P, axioms, discharged, violations, known_lines, notes, {"soft": soft_total}, runs)
 
 
@@ -504,7 +529,7 @@ def finish(pid, tier, seed, t0, P, axioms, discharged, violations, known_lines, 
         "obligations": len(P["theorems"]),
         "discharged": len(discharged),
         "obligation_list": [{"theorem": t, "axioms": axioms.get(t), "ok": t in discharged} for t in P["theorems"]],
-        "checker_cmd": "cd lean && lake build %s && lake env lean ../.build/Audit_%s.lean  (#print axioms of every property theorem; allowed: propext, Classical.choice, Quot.sound)" % (P["module"], pid),
+        "checker_cmd": "cd lean && lake build %s && lake env lean ../.build/Audit_%s.lean  (#print axioms of every property theorem; allowed: propext, Classical.choice, Quot.sound)" % (" ".join(P["module"]) if isinstance(P["module"], list) else P["module"], pid),
         "trusted_base": props.TRUSTED_BASE + P.get("trusted", []),
         "evaluations": evaluations,
         "traces_validated_against_impl": len([r for r in runs if not r.error]),
@@ -554,6 +579,11 @@ def do_replay(pid, path):
     mon = monitors.MONITORS.get(pid, monitors.default_monitor)
     hits = mon(pid, r)
     hard = r.hard_divs()
+    if r.error:
+        print("harness/driver error: " + r.error[:3000])
+        if "harness exit" in r.error:
+            print("VIOLATION property=%s replay=%s" % (pid, path))
+            return 1
     show = range(len(r.ops)) if len(r.ops) <= 400 else sorted(set(hard[:20]) | {i for i, _ in hits[:20]})
     for i in show:
         flag = " <== DIFFERS" if i in hard else ""
